@@ -3,6 +3,7 @@ package value
 import (
 	"context"
 	"fmt"
+	"reflect"
 	"sort"
 	"strings"
 
@@ -67,6 +68,10 @@ func (self ValueAnyObject) IsEqual(other Value) (bool, *Interrupt) {
 func (self ValueAnyObject) Fields() (map[string]*Value, *Interrupt) {
 	return map[string]*Value{
 		"set": NewValueBuiltinFunction(func(executor Executor, cancelCtx *context.Context, span errors.Span, args ...Value) (*Value, *Interrupt) {
+			// An any-object that contains itself cannot be displayed, compared, copied or serialized (endless recursion).
+			if containsAnyObject(args[1], self.FieldsInternal) {
+				return nil, NewThrowInterrupt(span, "an any-object cannot contain itself")
+			}
 			self.FieldsInternal[args[0].(ValueString).Inner] = &args[1]
 			return NewValueNull(), nil
 		}),
@@ -121,4 +126,36 @@ func NewValueAnyObject(fields map[string]*Value) *Value {
 		FieldsInternal: fields,
 	})
 	return &val
+}
+
+// containsAnyObject reports whether `val` is, or contains at any depth, the any-object whose fields are `target`.
+func containsAnyObject(val Value, target map[string]*Value) bool {
+	switch val := val.(type) {
+	case ValueAnyObject:
+		if reflect.ValueOf(val.FieldsInternal).Pointer() == reflect.ValueOf(target).Pointer() {
+			return true
+		}
+		for _, field := range val.FieldsInternal {
+			if field != nil && containsAnyObject(*field, target) {
+				return true
+			}
+		}
+	case ValueObject:
+		for _, field := range val.FieldsInternal {
+			if field != nil && containsAnyObject(*field, target) {
+				return true
+			}
+		}
+	case ValueList:
+		for _, element := range *val.Values {
+			if element != nil && containsAnyObject(*element, target) {
+				return true
+			}
+		}
+	case ValueOption:
+		if val.Inner != nil {
+			return containsAnyObject(*val.Inner, target)
+		}
+	}
+	return false
 }
